@@ -71,13 +71,21 @@ class SymNum:
 
 def canon_float(k, v, nz):
     """canonical abstract float: payload only when finite; sign-of-zero bit only at zero"""
-    return [k >= 0, k <= 3, z3.Implies(k != 3, v == 0), z3.Implies(z3.Or(k != 3, v != 0), z3.Not(nz))]
+    from mirsym.models import UF_RAT2F, UF_BIG2F
+    # a finite double is a fixed point of the rounding conversions (Ratio::to_f64, BigInt::to_f64) that are otherwise uninterpreted
+    return [k >= 0, k <= 3, z3.Implies(k != 3, v == 0), z3.Implies(z3.Or(k != 3, v != 0), z3.Not(nz)),
+            UF_RAT2F(v) == v, z3.Implies(z3.IsInt(v), UF_BIG2F(z3.ToInt(v)) == v)]
 
 def prefer_all(*nums):
-    a = []; b = []
+    a = []; b = []; c = []
     for n in nums:
         p, q = n.prefer(); a += p; b += q
-    return [a, b]
+        # third choice: huge but still a double (a multiple of 2^12 below 2^75) / any integer
+        if n.level in ('Float', 'Complex'):
+            c.append(z3.And(z3.IsInt(n.v / 4096), n.v >= -(1 << 75), n.v <= (1 << 75)))
+            if n.level == 'Complex': c.append(z3.And(z3.IsInt(n.v2 / 4096), n.v2 >= -(1 << 75), n.v2 <= (1 << 75)))
+        elif n.level == 'Rational': c.append(z3.IsInt(n.v * 720720))
+    return [a, b, c]
 
 # order on extended reals (no NaN): -inf < finite < +inf
 def ekey(k): return z3.If(k == 1, 1, z3.If(k == 2, -1, 0))
